@@ -71,7 +71,7 @@ func scaleTargets(depth int, or drv.Oracle) []*engine.Scenario {
 	var out []*engine.Scenario
 	one := []api.RelMode{api.RelByIdx}
 	for _, path := range []model.Path{model.PathMapN, model.PathUnsafe} {
-		o := relOpts{path: path, maxAlive: 90, batch: true, two: true, shrink: true, nTargets: 3}
+		o := relOpts{path: path, maxAlive: 90, batch: true, two: true, shrink: true, nTargets: 3, fixed: true}
 		or := or
 		or.Family = relFamily()
 		sc := &engine.Scenario{
